@@ -25,7 +25,8 @@ CHECKS = {
              "evaluator under observing handlers, tied per generated program (K-sem, 60 per run) to the real rewriter (output tree = the typed rewriter's), to CPython and to the "
              "real runtime (exception type, final bindings, recorded event stream = the evaluator's). C01_fun_semantics (model/FragFun.v) extends it to module-level functions, "
              "return, calls of named functions as right-hand sides and recursion on call-depth fuel, under every subscription, guard setting and guard policy (K-fun: whole-tree "
-             "equality with the real rewriter, exception class, bindings and stream vs real runs, 30 programs per run).",
+             "equality with the real rewriter, exception class, bindings and stream vs real runs, 16 programs per run); C01_prog_semantics (model/FragProg.v) is the same statement for "
+             "loops and functions together (while / else / break / continue in function bodies, return from inside loops, calls from loops, recursion; K-prog, 24 programs per run).",
         note="Outside the fragment the universal claim over programs is established program by program (translation validation with a verified checker), not by one theorem about a model "
              "of the rewriter; the laws are facts about CPython's evaluation, validated by the differential oracle, not proved. Trusted: Coq kernel + vm_compute; the "
              "AST exporter (interning, id canonicalisation); translators for node kinds, event names and reserved identifiers.",
@@ -42,7 +43,8 @@ CHECKS = {
              "C02_frag_stream (model/FragSem.v) is UNBOUNDED on a fragment of Python: for all primitive operations, subscriptions, source modules and environments the subscribed "
              "events arrive exactly as the reference evaluator writes them out construct by construct (once per occurrence, in order, with value and node, also when the program raises); "
              "tied to the real rewriter, CPython and the runtime by K-sem. C02_fun_stream (model/FragFun.v): with functions, calls and return the subscribed events are those of the "
-             "reference fref_module - call, argument, function-body and return events in evaluation order, after_function_execution once per invocation however it ends (K-fun, 30 per run).",
+             "reference fref_module - call, argument, function-body and return events in evaluation order, after_function_execution once per invocation however it ends (K-fun, 16 per run); C02_prog_stream (model/FragProg.v): loops and functions together, a return from "
+             "inside a loop passes after_while_loop_iter and then after_function_execution (K-prog, 24 per run).",
         note="Trusted: Coq kernel + vm_compute; ref_instr.py as the definition of what each event means (59 events with an unambiguous source meaning); astexport; the laws of EraseSound.v "
              "(Section hypotheses). Choices: bare except = except BaseException with no source node; before_subscript_* fire after the subscript expression.",
         ref="DESIGN.md section 7 C02"),
@@ -150,10 +152,12 @@ CHECKS = {
              "ARBITRARY guard policies (any function from the stream delivered so far to the guards that are on), modules, environments and fuel: C10_frag_results (any two runs "
              "end with the same exception and bindings), C10_frag_plain (those of the program as it is), C10_frag_stream (the subscribed events = the reference gated by the guards: "
              "iterations starting under an inactive body guard are silent, delivery resumes after deactivation). K-loop ties model, evaluator and reference to the real rewriter, "
-             "CPython and the real runtime on 60 generated programs per run under guard rules executed by real handlers; a real run differing from the gated reference is a violation. "
+             "CPython and the real runtime on 40 generated programs per run under guard rules executed by real handlers; a real run differing from the gated reference is a violation. "
              "Likewise for FUNCTION guards (model/FragFun.v: module-level functions, return, calls, recursion on call-depth fuel): C10_fun_results, C10_fun_plain, C10_fun_stream - an "
              "invocation that starts while the function's guard is off delivers nothing from that body (its callees according to their own guards), one that starts loud is closed by "
-             "after_function_execution however it ends, results are those of the untouched program; K-fun runs 40 generated programs per run under function-guard rules.",
+             "after_function_execution however it ends, results are those of the untouched program; K-fun runs 30 generated programs per run under function-guard rules. "
+             "C10_prog_results / _plain / _stream (model/FragProg.v) are the same three statements for loops and functions TOGETHER under one policy over test, body and function guards "
+             "(the pristine copy of a loop body keeps guarded tests on nested loops, that of a function body is plain); K-prog: 40 programs per run.",
         note="As C01. Outside the two fragments (for loops, comprehensions, lambdas, nested / decorated functions, calls inside expressions) silence is decided by the templates and the "
              "loop-silence oracle, not by a theorem. model/FragLoop.v counts fuel per loop execution, model/FragFun.v per call depth; both treat TRACING_ENABLED as true (inside a context); "
              "FragFun.v assumes the guard names bound (the NameError fallback re-raises) and reads a rewritten definition's local names off its pristine copy (assigned_fis proves the "
